@@ -600,6 +600,14 @@ func keepalive(transport Transport, interval time.Duration, quit <-chan struct{}
 	for {
 		select {
 		case <-ticker.C:
+			// A tick and the end of the session can both be pending (a ping that was held up by a peer
+			// that did not read returns long after the session is over): the end wins.
+			select {
+			case <-quit:
+				ticker.Stop()
+				return
+			default:
+			}
 			if err := transport.Ping(); err != nil {
 				// When keepalive fails, we force close the transport. In all cases, the recv will also fail.
 				ticker.Stop()
